@@ -238,6 +238,27 @@ def run_case(env, case):
     return term, problems, fired
 
 
+HANG_LIMIT = 180  # seconds; a normal call on the 2-process pool takes a few seconds
+
+
+def with_watchdog(fn, limit=HANG_LIMIT):
+    """Run fn() in a daemon thread; returns ('ok', value) | ('raised', exc) | ('hang', None) when it does not finish in time."""
+    import threading
+
+    box = {}
+
+    def target():
+        try:
+            box["v"] = ("ok", fn())
+        except BaseException as e:  # noqa: BLE001 - reported to the caller of with_watchdog
+            box["v"] = ("raised", e)
+
+    th = threading.Thread(target=target, daemon=True)
+    th.start()
+    th.join(limit)
+    return box.get("v", ("hang", None))
+
+
 def multipool_scenarios(ctx, env):
     """Real worker processes: a failure raised inside a worker (a library without the jitter column makes
     read_batch fail in the child) must reach the caller, leak nothing, and leave the SAME TheJoker/pool usable."""
@@ -264,27 +285,40 @@ def multipool_scenarios(ctx, env):
                     ps = os.path.join(ctx.scratch, "bad_user.hdf5")
                     bad_lib.write(ps, overwrite=True)
                 before = sorted(f for f in glob.glob(os.path.join(env["tmp"], "*")) if os.path.isfile(f) and is_cache_like(f))
-                try:
-                    call_entry(env2, entry, ps)
+                st, val = with_watchdog(lambda: call_entry(env2, entry, ps))
+                if st == "ok":
                     problems.append("a library without the jitter column was processed without error")
-                except Exception:
-                    pass
+                elif st == "hang":
+                    problems.append(f"the call did not return within {HANG_LIMIT} s after a worker failed on a 2-process pool: the failure never reached the caller (hang)")
+                    try:
+                        pool.terminate()
+                    except Exception:
+                        pass
+                    out.append((case, problems))
+                    continue  # the `finally` below disposes of the pool
                 leaked = [f for f in sorted(glob.glob(os.path.join(env["tmp"], "*"))) if os.path.isfile(f) and is_cache_like(f) and f not in before]
                 if leaked:
                     problems.append(f"worker failure on a multi-process pool leaked {[os.path.basename(f) for f in leaked]}")
                     for f in leaked:
                         os.unlink(f)
-                try:
-                    ll = joker.marginal_ln_likelihood(env["data"], good if inp == "obj" else env["user_fn"], n_batches=3)
-                    if not np.array_equal(ll, env["base_ll"]):
+                st, val = with_watchdog(lambda: joker.marginal_ln_likelihood(env["data"], good if inp == "obj" else env["user_fn"], n_batches=3))
+                if st == "ok":
+                    if not np.array_equal(val, env["base_ll"]):
                         problems.append("follow-up call after a worker failure returns different likelihoods (multi-process pool)")
-                except Exception as e:
-                    problems.append(f"follow-up call on the same TheJoker after a worker failure raised {type(e).__name__}: {str(e)[:100]}")
+                elif st == "hang":
+                    problems.append(f"follow-up call on the same TheJoker after a worker failure did not return within {HANG_LIMIT} s")
+                    try:
+                        pool.terminate()
+                    except Exception:
+                        pass
+                else:
+                    problems.append(f"follow-up call on the same TheJoker after a worker failure raised {type(val).__name__}: {str(val)[:100]}")
             finally:
-                try:
-                    pool.close()
-                except Exception:
-                    pass
+                if with_watchdog(pool.close, 30)[0] == "hang":
+                    try:
+                        pool.terminate()
+                    except Exception:
+                        pass
             out.append((case, problems))
     return out
 
